@@ -152,9 +152,24 @@ def generate(rng, tier):
             enc = ["float", "16", S("IEEE754"), S(MSB), ["-", []]]
             kind = ["enum", ["f1/1", S("one")], ["i2", S("two")], ["f0/1", S("zero")]]
         yield f"ptype {sx(['pt', S('T'), kind, enc])} {hx(data)} 0 ()", "ptype-enum-other"
+    # one enumerated type whose label is shared by several encoded values, asked for a run of values: each answer carries
+    # the raw value of *its own* bits (the type object is the same one throughout — see `cached`)
+    for _ in range(6 if tier == "quick" else 400):
+        labs = [rng.choice(["IDLE", "BUSY"]) for _ in range(4)]
+        if len(set(labs)) == 1:
+            labs[0] = "OTHER"
+        pt = ["pt", S("T"), ["enum"] + [[f"i{k}", S(labs[k])] for k in range(4)], int_enc(2)]
+        for _ in range(10):
+            yield f"ptype {sx(pt)} {hx(bytes([rng.randrange(256)]))} {rng.randrange(0, 7)} ()", "ptype-enum-shared-label"
 
 
 _objs = {}
+
+
+def history_key(line):
+    """Requests with the same calibrator / parameter-type syntax are answered by one library object (see `cached`)."""
+    t = parse_sx(line)
+    return (t[0], sx(t[1])) if len(t) > 1 else (t[0],)
 
 
 def cached(kind, tok, build):
